@@ -39,8 +39,8 @@ type Conn struct {
 	Datagram bool
 	in       []*record
 	nextRec  int
-	closed   bool // this end was closed locally
-	eof      bool // peer closed / half-closed: EOF after draining
+	closed   bool  // this end was closed locally
+	eof      bool  // peer closed / half-closed: EOF after draining
 	rdErr    error // injected: returned by the next Read once the queue is drained
 	rdErrNow bool  // injected error is returned even if data is queued
 
@@ -57,10 +57,10 @@ type Conn struct {
 	// OnConsumed is called when the last byte of record id has been read.
 	OnConsumed func(id int)
 
-	Writes     [][]byte
-	WriteAt    []time.Duration
-	ReadCalls  int
-	CloseCalls int
+	Writes       [][]byte
+	WriteAt      []time.Duration
+	ReadCalls    int
+	CloseCalls   int
 	DeadlineSets int
 }
 
@@ -202,9 +202,9 @@ func (c *Conn) InjectPeerReadErr(err error, now bool) {
 	c.peer.rdErrNow = now
 }
 
-func (c *Conn) Closed() bool  { return c.closed }
-func (c *Conn) Pending() int  { return len(c.in) }
-func (c *Conn) Peer() *Conn   { return c.peer }
+func (c *Conn) Closed() bool { return c.closed }
+func (c *Conn) Pending() int { return len(c.in) }
+func (c *Conn) Peer() *Conn  { return c.peer }
 
 func (c *Conn) LocalAddr() net.Addr  { return fakeAddr(c.Name) }
 func (c *Conn) RemoteAddr() net.Addr { return fakeAddr(c.peer.Name) }
